@@ -73,6 +73,16 @@ Theorem C19_expect_is_explicit_sum : forall (f : list R -> R) (c : pmeasure R),
 Proof. exact expect_is_explicit_sum. Qed.
 Print Assumptions C19_expect_is_explicit_sum.
 
+(* expect_var is the weighted second moment about the weighted mean, over ALL points of the product measure (points of zero
+   weight contribute nothing whether or not the implementation skips them; weights stay aligned with their points) *)
+Theorem C19_expect_var_is_explicit_sum : forall (f : list R -> R) (c : pmeasure R),
+  Rsum (weights NumR c) <> 0%R ->
+  let m := (wsum NumR f (positions c) (weights NumR c) / Rsum (weights NumR c))%R in
+  expect_var NumR f c =
+  Some (wsum NumR (fun x => ((f x - m) * (f x - m))%R) (positions c) (weights NumR c) / Rsum (weights NumR c))%R.
+Proof. exact expect_var_is_explicit_sum. Qed.
+Print Assumptions C19_expect_var_is_explicit_sum.
+
 Theorem C19_pof_is_indicator_sum : forall (f : list R -> R) (c : pmeasure R),
   pof NumR f c =
   Rsum (map (fun p => if Rleb (f (fst p)) 0 then snd p else 0%R) (combine (positions c) (weights NumR c))).
